@@ -1009,8 +1009,8 @@ def gen(rng, tier):
     cases = fixed_cases()
     cases += lattice_cases(rng, 2, 2, 2) if quick else lattice_cases(rng, 2, 3, 2) + lattice_cases(rng, 3, 2, 2)
     cases += selection_cases(rng, 3 if quick else 4)
-    cases += ctor_cases(rng, 300 if quick else 3000)
-    n_rand = 2500 if quick else 40000
+    cases += ctor_cases(rng, 300 if quick else 5000)
+    n_rand = 2500 if quick else 80000
     for _ in range(n_rand):
         r = rng.random()
         kind = 'solve_t' if r < 0.7 else 'twin' if r < 0.88 else 'solve'
